@@ -256,6 +256,22 @@ Definition block_dtype (line : str) : option str :=
   | [] => None
   end.
 
+(* the attributes of a '<tag k="v" ...>' line: {k: v[1:-1] for k, v in [key.split('=') for key in tmp.split(' ')[1:]]};
+   a piece that does not split into exactly two parts at '=' raises (e.g. an attribute value with a blank in it) *)
+Definition key_piece (piece : str) : option (str * str) :=
+  match split_on 61 piece with
+  | [k; v] => Some (k, removelast (tl v))
+  | _ => None
+  end.
+Definition block_keys (line : str) : option (list (str * str)) :=
+  match line with
+  | _ :: r => match take_until 62 r with
+              | Some tmp => if memc 32 tmp then all_some (map key_piece (tl (split_on 32 tmp))) else Some []
+              | None => None
+              end
+  | [] => None
+  end.
+
 Record block := mk_block { b_head : str; b_dtype : str; b_body : list str }.
 Record racc := mk_racc {
   ra_err : bool;
@@ -279,9 +295,9 @@ Definition read_step (a : racc) (line : str) : racc :=
         if memc 58 line then mk_racc false None (ra_data a) (ra_blocks a) (line :: ra_meta a)
         else mk_racc true None (ra_data a) (ra_blocks a) (ra_meta a)
       else if starts 60 line then
-        match block_dtype line with
-        | Some dt => mk_racc false (Some (line, dt, [])) (ra_data a) (ra_blocks a) (ra_meta a)
-        | None => mk_racc true None (ra_data a) (ra_blocks a) (ra_meta a)
+        match block_dtype line, block_keys line with
+        | Some dt, Some _ => mk_racc false (Some (line, dt, [])) (ra_data a) (ra_blocks a) (ra_meta a)
+        | _, _ => mk_racc true None (ra_data a) (ra_blocks a) (ra_meta a)
         end
       else mk_racc false None (map strip (split_on 9 line) :: ra_data a) (ra_blocks a) (ra_meta a)
   end.
